@@ -93,7 +93,8 @@ type Source struct {
 	addr     string
 	Default  *Plan // used when the plans are exhausted (nil: refuse)
 	// Role reported by INFO ("" = master)
-	Role string
+	Role           string
+	relistenFailed bool
 	// RequireAuth: commands on a connection that has not authenticated are answered with -NOAUTH
 	// (off by default: component-level checks drive single connections without the AUTH step)
 	RequireAuth bool
@@ -138,7 +139,18 @@ func (s *Source) Pause(d time.Duration) {
 			}
 			time.Sleep(20 * time.Millisecond)
 		}
+		// the port went to somebody else while it was free (another test process on this machine)
+		s.mu.Lock()
+		s.relistenFailed = true
+		s.mu.Unlock()
 	})
+}
+
+// RelistenFailed: a Pause could not get the port back; what the tool did afterwards says nothing about the tool.
+func (s *Source) RelistenFailed() bool {
+	s.mu.Lock()
+	defer s.mu.Unlock()
+	return s.relistenFailed
 }
 
 func (s *Source) Close() {
